@@ -292,21 +292,27 @@ mod h {
     binop_int!(c01_u5_binop_i64_mod, 10, ast::BinOp::Mod);
 
     /// == and != on integers go to the equality lowering with the right polarity and sides.
+    macro_rules! binop_eq_ne {
+        ($name:ident, $ne:expr) => {
     #[kani::proof]
     #[kani::unwind(34)]
-    fn c01_u5_binop_eq_ne() {
+    fn $name() {
         let mut ti = TypeInfo { ty_pool: base_pool() };
         let r = rt();
         let mut ctx = LowerCtx { runtime: &r, type_info: &mut ti };
         let mut l = lowerer(&mut ctx);
         let k: usize = 9; // i32 (the dispatch to call_eq_of happens before the type is looked at)
-        let ne: bool = kani::any();
+        let ne: bool = $ne;
         let op = if ne { ast::BinOp::Ne } else { ast::BinOp::Eq };
         let _ = l.binop(mvar(3), op, well_known(k), mvar(5));
         let want = Call::EqOf { negate: ne, left: Operand2::Place(lvar(3)), right: Operand2::Place(lvar(5)), ty: well_known(k) };
         assert!(l.calls.len() == 1 && l.calls[0] == want && l.blocks[0].instructions.is_empty(), "OBL:C01.lir.binop.eq_ne_delegates_with_polarity_and_sides");
-        kani::cover!(ne, "COV:C01.lir.binop.ne_reached");
+        kani::cover!(true, "COV:C01.lir.binop.eq_ne_reached");
     }
+        };
+    }
+    binop_eq_ne!(c01_u5_binop_eq, false);
+    binop_eq_ne!(c01_u5_binop_ne, true);
 
     /// floats: + - * keep their instruction (the code generator picks the float opcode from the
     /// operand type), / becomes FDiv, orderings become the same-named IEEE comparison.
